@@ -69,16 +69,21 @@ fn real_main() {
 		let mut rng = Rng::new(seed);
 		match prop {
 			"C01" => {
+				engines::msgpack::run_decode(&mut out, &mut rng.fork(), thorough);
+				engines::transcode::run(&mut out, &mut rng.fork(), thorough);
 				engines::tomlorder::run(&mut out, &mut rng.fork(), thorough);
 				props::c01::run(&mut out, &mut rng.fork(), thorough);
 			}
 			"C02" => {
+				engines::msgpack::run_size(&mut out, &mut rng.fork(), thorough);
+				engines::msgpack::run_decode(&mut out, &mut rng.fork(), thorough);
 				// The correspondences of the models C02's theorems are about.
 				engines::input::run(&mut out, &mut rng.fork(), thorough);
 				engines::json::run(&mut out, &mut rng.fork(), thorough);
 				props::c02::run(&mut out, &mut rng.fork(), thorough);
 			}
 			"C04" => {
+				engines::msgpack::run_size(&mut out, &mut rng.fork(), thorough);
 				// Correspondences of the engines whose no-panic theorems C04 lists.
 				engines::input::run(&mut out, &mut rng.fork(), thorough);
 				engines::chunker::run(&mut out, &mut rng.fork(), thorough);
@@ -86,11 +91,13 @@ fn real_main() {
 				props::c04::run(&mut out, &mut rng.fork(), thorough);
 			}
 			"C06" => {
+				engines::msgpack::run_decode(&mut out, &mut rng.fork(), thorough);
 				engines::json::run(&mut out, &mut rng.fork(), thorough);
 				engines::tomlorder::run(&mut out, &mut rng.fork(), thorough);
 				props::c06::run(&mut out, &mut rng.fork(), thorough);
 			}
 			"C10" => {
+				engines::msgpack::run_decode(&mut out, &mut rng.fork(), thorough);
 				engines::json::run(&mut out, &mut rng.fork(), thorough);
 				engines::input::run(&mut out, &mut rng.fork(), thorough);
 				props::c10::run(&mut out, &mut rng.fork(), thorough);
